@@ -70,9 +70,11 @@ pub fn baseline() -> Value {
             "id": "partner", "rank": 5,
             "source": {"scheme": null, "host": null, "ips": null, "path": "/t/b/v-1f", "query": null, "headers": null, "methods": null, "exclude_methods": null,
                        "response_status_codes": null, "exclude_response_status_codes": null, "sampling": null},
-            "target": "https://www.example.org/p/abc/x?a=1&b=2", "status_code": 301, "markers": [], "variables": [],
-            "body_filters": null, "header_filters": null, "log_override": null, "reset": null, "stop": null,
-            "examples": [{"url": "/t/b/v-1f", "method": null, "headers": null, "ip_address": null, "response_status_code": null, "must_match": true, "unit_ids_applied": []}],
+            "target": "https://www.example.org/p/abc/x?a=1&b=2", "status_code": 301, "markers": [],
+            // no date / time trigger on this rule: whatever the instant of the request, its request_time variable is computed
+            "variables": [{"name": "t2", "type": "request_time", "transformers": []}],
+            "body_filters": null, "header_filters": [{"action": "add", "header": "X-T", "value": "@t2", "id": null, "target_hash": null}], "log_override": null, "reset": null, "stop": null,
+            "examples": [{"url": "/t/b/v-1f", "method": null, "headers": null, "ip_address": null, "datetime": "2024-06-01T10:00:00Z", "response_status_code": null, "must_match": true, "unit_ids_applied": []}],
             "redirect_unit_id": null, "configuration_log_unit_id": null, "configuration_reset_unit_id": null, "target_hash": null
         },
         "rule3": {
@@ -278,13 +280,16 @@ pub fn deviations() -> Vec<(String, Vec<Value>)> {
     for base in ["/example", "/rule/examples/0"] {
         add(&format!("{base}/url"), urls.clone());
         add(&format!("{base}/ip_address"), vec![Value::Null, json!("garbage"), json!(""), json!("::1"), json!("10.0.0.1:80"), json!("999.1.1.1"), json!(" 10.0.0.1")]);
-        add(&format!("{base}/datetime"), vec![Value::Null, json!("garbage"), json!(""), json!("2024-06-01"), json!("2024-06-01T10:00:00")]);
+        add(&format!("{base}/datetime"), vec![Value::Null, json!("garbage"), json!(""), json!("2024-06-01"), json!("2024-06-01T10:00:00"),
+            // instants at the edges of what the date type can represent / what a textual format can print
+            json!("+10000-01-01T00:00:00Z"), json!("9999-12-31T23:59:59Z"), json!("0000-01-01T00:00:00Z"), json!("-0001-12-31T00:00:00Z"), json!("+262142-12-31T23:59:59Z"), json!("1970-01-01T00:00:00+14:00")]);
         add(&format!("{base}/method"), vec![Value::Null, json!(""), json!("get"), json!("G E T"), json!("𝄞"), json!("POST")]);
         add(&format!("{base}/response_status_code"), vec![Value::Null, json!(0), json!(404), json!(65535), json!(301)]);
         add(&format!("{base}/must_match"), vec![json!(false)]);
         add(&format!("{base}/unit_ids_applied"), vec![Value::Null, json!([]), json!(["nosuch", "u1", "u1"])]);
         add(&format!("{base}/headers"), vec![Value::Null, json!([]), json!([{"name": "", "value": ""}]), json!([{"name": "X-Foo", "value": "v-zz"}, {"name": "x-foo", "value": "v-1"}])]);
     }
+    add("/rule2/examples/0/datetime", vec![Value::Null, json!("garbage"), json!("+10000-01-01T00:00:00Z"), json!("9999-12-31T23:59:59Z"), json!("0000-01-01T00:00:00Z"), json!("-0001-12-31T00:00:00Z"), json!("+262142-12-31T23:59:59Z")]);
     add("/analysis/max_hops", vec![json!(0), json!(1), json!(2), json!(255)]);
     add("/analysis/project_domains", vec![json!([]), json!(["example.org"]), json!(["", "www.example.org"]), json!(["other.example.net"])]);
     add("/analysis/impact_action", vec![json!("add"), json!("delete"), json!("bogus"), json!("")]);
@@ -973,9 +978,17 @@ pub fn run_ffi(func: usize, mask: u32, payload: usize) -> Vec<PanicInfo> {
             }
             "redirectionio_log_init_with_callback" => {
                 static DATA: u8 = 0;
+                // payload 2: the OTHER initialiser ran first (a logger is already installed)
+                if payload == 2 {
+                    redirectionio_log_init_stderr();
+                }
                 redirectionio_log_init_with_callback(log_cb, &DATA as *const u8 as *const _);
-                if payload > 0 {
+                if payload == 1 {
                     redirectionio_log_init_with_callback(log_cb, &DATA as *const u8 as *const _);
+                }
+                // ... and the other way round
+                if payload == 0 {
+                    redirectionio_log_init_stderr();
                 }
             }
             _ => {}
@@ -1226,7 +1239,13 @@ pub fn run(tier: Tier) -> i32 {
                     ctx.set_capped(format!("stopped after 4 reproducible timeouts: {} of {} cases run", done.load(Ordering::Relaxed), n));
                     break;
                 }
-                let mut todo: Vec<usize> = (start..(start + batch).min(n)).collect();
+                // cases that install process-wide state (the logger) run in a worker process of their own: what they do depends on
+                // whether an earlier case of the same process has installed one already
+                let all: Vec<usize> = (start..(start + batch).min(n)).collect();
+                let solo = |i: &usize| matches!(&cases[*i], Case::Ffi(f, _, _) if FFI_FUNCS[*f].0.contains("log_init"));
+                let mut groups: Vec<Vec<usize>> = vec![all.iter().copied().filter(|i| !solo(i)).collect()];
+                groups.extend(all.iter().copied().filter(|i| solo(i)).map(|i| vec![i]));
+                for mut todo in groups {
                 while !todo.is_empty() {
                     let res = run_batch(tier, &todo, false, timeout);
                     let mut finished = std::collections::BTreeSet::new();
@@ -1289,6 +1308,7 @@ pub fn run(tier: Tier) -> i32 {
                         machinery.lock().unwrap().push("worker produced no result".to_string());
                         break;
                     }
+                }
                 }
             });
         }
